@@ -34,7 +34,7 @@ ASSUMPTIONS = [
 REAL = REAL_ALL
 STUB = STUB_ALL + ["pass-through wrappers recording that Fail._decide_match / Stopper._stop_me / ErrorHandler._handle_if executed (secondary monitor)"]
 
-FAMILIES = ["plain", "no", "fas", "onmatch", "after_stop", "after_skip", "when_false", "error", "error_vm_fail", "error_vm_nofail", "onmatch_rejected", "fail_then_error", "error_skip_same_line", "fas_onmatch", "plain_nocontrib", "fas_nocontrib", "abort_outside"]
+FAMILIES = ["plain", "no", "fas", "onmatch", "after_stop", "after_skip", "when_false", "error", "error_vm_fail", "error_vm_nofail", "onmatch_rejected", "fail_then_error", "error_skip_same_line", "fas_onmatch", "plain_nocontrib", "fas_nocontrib", "abort_outside", "error_lhs_fail"]
 PRE = 'push("bl", line_number()) push("b", valid()) push("bf", failed())'
 POST = 'push("al", line_number()) push("a", valid()) push("af", failed()) simprobe("p")'
 
@@ -56,6 +56,9 @@ def family_body(fam, K):
         return '#c == "NEVER" -> fail()'
     if fam in ("error", "error_vm_fail", "error_vm_nofail"):
         return 'simfault("s")'
+    if fam == "error_lhs_fail":
+        # the left-hand side of a when/do errors on line K (and is false everywhere else): the fail() on the right is never due
+        return 'gt(simfaultv("s"), 100) -> fail()'
     if fam == "onmatch_rejected":
         return '#c == "NOPE" fail.onmatch()'
     if fam == "fas_onmatch":
@@ -83,7 +86,7 @@ def member_text(m, j, file="", dup=False):
         head += " validation-mode:fail"
     elif m["fam"] == "error_vm_nofail":
         head += " validation-mode:no-fail"
-    return f"~{head}~ ${file}[*][ {PRE} {family_body(m['fam'], m['K'])} {POST} ]"
+    return f"~{head}~ ${file}[{m.get('scan', '*')}][ {PRE} {family_body(m['fam'], m['K'])} {POST} ]"
 
 
 def generate(rng, i, tier):
@@ -103,6 +106,10 @@ def generate(rng, i, tier):
     planted = sorted(l for l in range(1, nrec) if l not in blanks and rng.random() < 0.3)
     k = rng.randint(1, 4)
     members = [{"fam": rng.choice(FAMILIES), "K": rng.randint(0, nrec), "K2": rng.randint(0, nrec)} for _ in range(k)]
+    for m in members:
+        if rng.random() < 0.08:
+            # a member whose scan selects no line of the file at all: it runs, evaluates nothing and stays valid
+            m["scan"] = f"{nrec + rng.randint(0, 3)}*"
     dup_ids = k >= 2 and rng.random() < 0.08
     if dup_ids:
         # two or more members written with the SAME identity (legal: nothing forbids it); families without injected errors
@@ -184,8 +191,8 @@ def first_event(sc, m, lines):
         return (lines[0] if pol_fail else None), False, lines[0]
     if fam == "after_stop":
         return None, True, (K if K in lines else None)
-    if fam in ("error", "error_vm_fail", "error_vm_nofail"):
-        eff = pol_fail if fam == "error" else (fam == "error_vm_fail")
+    if fam in ("error", "error_vm_fail", "error_vm_nofail", "error_lhs_fail"):
+        eff = pol_fail if fam in ("error", "error_lhs_fail") else (fam == "error_vm_fail")
         hit = K in lines
         return (K if (hit and eff) else None), False, (K if (hit and pol_stop) else None)
     if fam == "error_skip_same_line":
@@ -213,7 +220,7 @@ def execute(sc):
     lines = [l for l in range(sc["nrec"]) if l not in sc["blanks"]]
     members = sc["members"]
     k = len(members)
-    exp = [first_event(sc, m, lines) for m in members]
+    exp = [first_event(sc, m, lines if m.get("scan", "*") == "*" else []) for m in members]
     plan = [(f"m{j}", m["K"], "s") for j, m in enumerate(members) if m["fam"].startswith("error")]
     plan += [(f"m{j}", m.get("K2", m["K"]), "s") for j, m in enumerate(members) if m["fam"] == "fail_then_error"]
     plan += [(f"m{j}", m["K"], "s") for j, m in enumerate(members) if m["fam"] == "error_skip_same_line"]
@@ -384,6 +391,7 @@ def execute(sc):
         out.extra["manager_polls_midrun"] = online.get("mgr_polls", 0)
         out.probe("run after an earlier run that used a cross-path signal on the same instance", False)
         out.probe("members sharing one identity", bool(sc.get("dup_ids")))
+        out.probe("member whose scan selects no line", any(m.get("scan", "*") != "*" for m in members))
         out.probe("verdict event on the last line", "last" in pos)
         out.probe("group with both valid and failed members", k > 1 and len(set(wants)) == 2)
         out.log([list(e) for e in exp], [ops.path_state(g["cp"]) for g in got], mgr_valid, len(out.violations))
